@@ -47,7 +47,7 @@ Record entry : Set := mkEntry {
 }.
 
 (* ---------- sort_dataframe_by_onsets ----------
-   df.sort_values(by=numeric onset).  Before fix C10-F1 pandas was called without
+   df.sort_values(by=numeric onset).  Before fix commit 29fcd01 (finding C10-F1) pandas was called without
    kind=, so the order among equal keys was whatever the platform's quicksort
    produced; the model of the unrepaired code takes that order as an optional
    explicit argument [perm] (positions of the input, in output order) and
@@ -107,7 +107,7 @@ Section Sort.
     end.
 
   (* sort_dataframe_by_onsets itself.  [fixed] = the repaired code
-     (sort_values(..., kind='stable'), fix C10-F1): the order among equal keys is
+     (sort_values(..., kind='stable'), fix commit 29fcd01): the order among equal keys is
      the input order and the platform's choice [perm] plays no role. *)
   Definition sort_dataframe_by_onsets (fixed : bool) (perm : option (list nat)) (l : list A)
     : res (list A) :=
@@ -219,7 +219,7 @@ Fixpoint index_from {B} (i : nat) (l : list B) : list (nat * B) :=
   match l with [] => [] | x :: r => (i, x) :: index_from (S i) r end.
 
 (* ---------- SpreadsheetValidator.validate, onset part ----------
-   fixed: the repaired sort (fix C10-F1).  perm1 / perm2: the tie orders chosen by
+   fixed: the repaired sort (fix commit 29fcd01, the code now in /repo).  perm1 / perm2: the tie orders chosen by
    the two sort_values calls of the unrepaired code (None = order-preserving). *)
 (* [ov] = the _onsets of the OnsetValidator object that _run_onset_checks uses *)
 Definition process_file_from (fixed : bool) (perm1 perm2 : option (list nat)) (ov : state) (rows : list row)
@@ -241,6 +241,8 @@ Definition process_file (fixed : bool) (perm1 perm2 : option (list nat)) (rows :
   process_file_from fixed perm1 perm2 state0 rows.
 
 (* ---------- one SpreadsheetValidator object validating several files ----------
+   Modelling decision (tested on the implementation, see harness): validate() overwrites
+   self._onset_validator with a fresh OnsetValidator(), so sv_validate ignores [sv].
    [sv] = self._onset_validator left behind by the previous validate() call
    (None before the first call): its _onsets, i.e. the scopes the previous file left open. *)
 Definition sv_state := option state.
